@@ -183,7 +183,7 @@ func TestCutInChar(t *testing.T) {
 		return
 	}
 	r.Rule("text protocols with 2-, 3- and 4-byte UTF-8 characters (code points at the edges of every encoded length + sampled) in user names / passwords / command lines / arguments (telnet, ftp, smtp, memcached): every cut point that falls inside a character - singly (exhaustive per dialog), all at once, and per character at all its interior points; same oracle as TestEveryCut")
-	r.Rapid(t, "TestCutInChar", r.Pick(16, 160), func(rt *rapid.T) {
+	r.Rapid(t, "TestCutInChar", r.Pick(16, 80), func(rt *rapid.T) {
 		kind := rapid.SampledFrom([]string{"telnet-utf8", "telnet-utf8", "ftp-utf8", "memcached-utf8", "smtp-utf8"}).Draw(rt, "kind")
 		d := genTCP(rt, kind)
 		stream := d.Stream()
